@@ -12,5 +12,6 @@ var (
 	ErrContractCodeLoadFail     = errors.New("contract code load fail")
 	ErrAssetEquity              = errors.New("asset equity can't be nil or 0")
 	ErrTransferFrozenAsset      = errors.New("cannot trade frozen assets")
+	ErrNegativeAssetAmount      = errors.New("asset amount can't be negative")
 	ErrTermReward               = errors.New("no permission to call this Precompiled contract")
 )
